@@ -20,7 +20,9 @@ RULE = (
     'are taken BEFORE the history as well (process-wide state), numpy error handling must be what it was after '
     'every call, names ending in e next to a sign. Round 5: calls made inside a with-block that the exception '
     'leaves; an atom type given as a factory function. Round 6: a configuration that leaves an operator without a '
-    'step; user-defined operators whose constructor reads input. Distinct = distinct case JSON.'
+    'step; user-defined operators whose constructor reads input. Rounds 7-8: step lists that name unselected '
+    'operators; function arguments of equal hash(); a function among the operators without the plain parenthesis. '
+    'Distinct = distinct case JSON.'
 )
 ASSUMPTIONS = ["single-threaded histories", "exception messages are not compared (they embed token reprs), only the type"]
 NT_FLOOR = 0.15
